@@ -1,4 +1,7 @@
 SPECIFICATION TraceSpec
+CONSTANTS
+  PerMount = FALSE
+  ClassBlind = FALSE
 CONSTRAINT Mark
 POSTCONDITION Accepted
 INVARIANT CTypeOK
